@@ -326,6 +326,22 @@ pub fn block_on<F: Future>(f: F) -> F::Output {
     panic!("future did not complete in 10000 polls");
 }
 
+/// polls a boxed future exactly once and drops it; returns "ready" / "pending"
+fn poll_once<T>(mut f: Pin<Box<dyn Future<Output = T>>>) -> &'static str {
+    use std::sync::Arc;
+    use std::task::{Context, Poll, Wake, Waker};
+    struct W;
+    impl Wake for W {
+        fn wake(self: Arc<Self>) {}
+    }
+    let waker = Waker::from(Arc::new(W));
+    let mut cx = Context::from_waker(&waker);
+    match f.as_mut().poll(&mut cx) {
+        Poll::Ready(_) => "ready",
+        Poll::Pending => "pending",
+    }
+}
+
 fn gen_string(rng: &mut Rng) -> String {
     // lengths that straddle the 64 byte inline buffer (4 byte version + 8 byte length + data)
     let l = *rng.pick(&[0usize, 1, 10, 40, 50, 51, 52, 53, 60, 63, 64, 65, 100, 130, 1000]);
@@ -353,7 +369,7 @@ fn catch<R>(f: impl FnOnce() -> R) -> Result<R, String> {
 pub fn script(p: &mut dyn Plain, seed: u64, steps: usize, out: &mut Vec<String>) {
     let mut rng = Rng::new(seed);
     for step in 0..steps {
-        let op = rng.below(38);
+        let op = rng.below(39);
         let r: String = match op {
             0 => format!("add={}", p.add(rng.next_u64() as u32, rng.next_u64() as u32)),
             1 => format!("echo_string={:?}", p.echo_string(gen_string(&mut rng))),
@@ -489,6 +505,13 @@ pub fn script(p: &mut dyn Plain, seed: u64, steps: usize, out: &mut Vec<String>)
                 let r = p.call_fn(&|x| x.wrapping_mul(2), 21);
                 format!("call_fn2={}", r)
             }
+            37 => {
+                // obtain a future, poll it once (it is Pending), then abandon it: cancellation must
+                // reach the implementation side (its state is dropped exactly once)
+                let f = p.fut(rng.next_u64() as u32);
+                let polled = poll_once(f);
+                format!("fut_abandoned={}", polled)
+            }
             _ => format!("add={}", p.add(1, step as u32)),
         };
         out.push(r);
@@ -511,9 +534,10 @@ fn same_result(direct: &str, abi: &str) -> bool {
 }
 
 pub fn run(ctx: &mut Ctx) {
-    // under Miri every shard runs one or two short scenarios
-    let scenarios = if cfg!(miri) { ctx.nshards * 2 } else { ctx.t(60, 1500) };
-    let steps = if cfg!(miri) { 38 } else { ctx.t(40, 60) };
+    run_wide(ctx);
+    // under Miri every shard runs one short scenario
+    let scenarios = if cfg!(miri) { ctx.nshards } else { ctx.t(60, 1500) };
+    let steps = if cfg!(miri) { 30 } else { ctx.t(40, 60) };
     for sc in 0..scenarios {
         if !ctx.mine(sc) {
             continue;
@@ -620,6 +644,79 @@ pub fn run(ctx: &mut Ctx) {
                 ]),
             );
         }
+    }
+}
+
+/// Interfaces at the documented limits: methods with 1..64 arguments (references in first, middle and
+/// last position) and a trait with 70 methods. Direct call = model.
+fn run_wide(ctx: &mut Ctx) {
+    use crate::wide_gen::*;
+    let rounds = if cfg!(miri) { 1 } else { ctx.t(6, 60) };
+    for r in 0..rounds {
+        if !ctx.mine(r) {
+            continue;
+        }
+        let seed = ctx.seed.wrapping_mul(77_003).wrapping_add(r as u64);
+        // --- Wide
+        let seen_d = std::sync::Arc::new(std::sync::Mutex::new(vec![]));
+        let mut out_d = vec![];
+        drive_wide(&WideImpl(seen_d.clone()), seed, &mut out_d);
+        let seen_a = std::sync::Arc::new(std::sync::Mutex::new(vec![]));
+        let mut out_a = vec![];
+        let boxed: Box<dyn Wide> = Box::new(WideImpl(seen_a.clone()));
+        match vcore::util::catch(|| AbiConnection::from_boxed_trait(boxed)) {
+            Ok(Ok(conn)) => {
+                drive_wide(&conn, seed, &mut out_a);
+                compare_wide(ctx, "Wide", seed, &out_d, &out_a, &seen_d.lock().unwrap(), &seen_a.lock().unwrap());
+            }
+            Ok(Err(e)) => ctx.violation("C09:connection-creation-failed", "Wide", J::obj(vec![("observed", J::s(format!("{:?}", e))), ("note", J::s("methods have at most 64 arguments, the documented maximum"))])),
+            Err(p) => ctx.violation("C09:connection-creation-panicked", "Wide", J::obj(vec![("observed", J::s(p))])),
+        }
+        // --- Many
+        let calls = if cfg!(miri) { MANY_METHODS } else { MANY_METHODS + 50 };
+        let seen_d = std::sync::Arc::new(std::sync::Mutex::new(vec![]));
+        let mut out_d = vec![];
+        drive_many(&mut ManyImpl(seen_d.clone(), 1), seed, calls, &mut out_d);
+        let seen_a = std::sync::Arc::new(std::sync::Mutex::new(vec![]));
+        let mut out_a = vec![];
+        let boxed: Box<dyn Many> = Box::new(ManyImpl(seen_a.clone(), 1));
+        match vcore::util::catch(|| AbiConnection::from_boxed_trait(boxed)) {
+            Ok(Ok(mut conn)) => {
+                drive_many(&mut conn, seed, calls, &mut out_a);
+                compare_wide(ctx, "Many", seed, &out_d, &out_a, &seen_d.lock().unwrap(), &seen_a.lock().unwrap());
+            }
+            Ok(Err(e)) => ctx.violation("C09:connection-creation-failed", "Many", J::obj(vec![("observed", J::s(format!("{:?}", e))), ("note", J::s("any number of methods is supported"))])),
+            Err(p) => ctx.violation("C09:connection-creation-panicked", "Many", J::obj(vec![("observed", J::s(p))])),
+        }
+    }
+}
+
+fn compare_wide(ctx: &mut Ctx, subject: &str, seed: u64, out_d: &[String], out_a: &[String], seen_d: &[String], seen_a: &[String]) {
+    ctx.count("wide_scenarios");
+    ctx.evals(out_d.len() as u64);
+    for (i, (d, a)) in out_d.iter().zip(out_a.iter()).enumerate() {
+        let op = d.split('=').next().unwrap_or("").to_string();
+        ctx.distinct(&format!("{}|{}", subject, op));
+        if d == a {
+            ctx.count("results_equal");
+        } else {
+            ctx.violation(&format!("C09:result-differs:{}", op), subject, J::obj(vec![("scenario_seed", J::i(seed)), ("call", J::i(i)), ("direct", J::s(trunc(d))), ("through_abi", J::s(trunc(a)))]));
+        }
+    }
+    if seen_d == seen_a {
+        ctx.count_n("argument_records_equal", seen_d.len() as u64);
+    } else {
+        let idx = seen_d.iter().zip(seen_a.iter()).position(|(x, y)| x != y).unwrap_or(seen_d.len().min(seen_a.len()));
+        ctx.violation(
+            "C09:implementation-saw-different-arguments",
+            subject,
+            J::obj(vec![
+                ("scenario_seed", J::i(seed)),
+                ("first_difference_at_call", J::i(idx)),
+                ("direct", J::s(trunc(seen_d.get(idx).map(|x| x.as_str()).unwrap_or("<none>")))),
+                ("through_abi", J::s(trunc(seen_a.get(idx).map(|x| x.as_str()).unwrap_or("<none>")))),
+            ]),
+        );
     }
 }
 
